@@ -90,7 +90,7 @@ struct Leaf
     std::vector<std::string> strs; // printed texts (tokens encoded, see parseText)
 };
 struct PathRec { std::vector<std::pair<Cond, bool>> conds; Leaf leaf; };
-struct Param { std::string name; const Shape* shape; std::vector<const Node*> vars; };
+struct Param { std::string name; const Shape* shape; std::vector<const Node*> vars; bool src = false; /* C04 cast entries: element type β (the source of `cast : β → α`) */ };
 
 struct FnRecord
 {
@@ -216,8 +216,14 @@ struct Opts
     Opts& paths (size_t n) { maxPaths = n; return *this; }
     Opts& nz () { nozero = true; return *this; }
     Opts& say (const char* s) { note = s; return *this; }
+    // additional TV inputs per element type from the small-integer lattice {-2..2} with random sparsity / repeated rows
+    // (pivot-search and zero-test trees: the inputs on which the rare leaves are reached); see tvLatticeExtra ()
+    int    latticeTV = 0;
+    Opts& lattice (int n) { latticeTV = n; return *this; }
 };
-struct TVStats { long evals = 0; long nontrivial = 0; /* inputs not all equal */ };
+inline int& tvLatticeExtra () { static int v = 0; return v; } // set by the tv driver from Opts::latticeTV before an entry is validated
+struct TVStats { long evals = 0; long nontrivial = 0; /* inputs not all equal */
+                 std::map<const void*, std::set<size_t>> hit; /* per FnRecord: leaves of the extracted tree reached by the TV inputs */ };
 // type-erased translator-validation runner for one element type
 typedef std::function<bool (const FnRecord&, unsigned long seed, int n, bool nozero, std::string& detail, TVStats&)> TVFn;
 // run the real instantiation at double on given inputs (replay of a failing input)
@@ -303,7 +309,7 @@ inline std::map<std::string, Needs>& needsIndex () { static std::map<std::string
 // The callee's argument shapes come from a FnRecord registered in fnIndex() under the same name.
 inline std::map<std::string, std::string>& paramFns () { static std::map<std::string, std::string> m; return m; }
 
-static const char* EXTRA_ORDER[] = {"tmin", "tmax", "teps", "tlowest", "sqrt", "sin", "cos", "tan", "acos", "asin", "atan", "exp", "log", "atan2", "pow"};
+static const char* EXTRA_ORDER[] = {"tmin", "tmax", "teps", "tlowest", "sqrt", "sin", "cos", "tan", "acos", "asin", "atan", "exp", "log", "atan2", "pow", "cast"};
 inline bool extraIsBinary (const std::string& e) { return e == "atan2" || e == "pow"; }
 inline bool extraIsConst (const std::string& e) { return e == "tmin" || e == "tmax" || e == "teps" || e == "tlowest"; }
 
@@ -367,6 +373,7 @@ struct Emitter
             case TMAX: needs.extra.insert ("tmax"); break;
             case TEPS: needs.extra.insert ("teps"); break;
             case TLOWEST: needs.extra.insert ("tlowest"); break;
+            case CAST: needs.extra.insert ("cast"); break;
             case CALL:
             {
                 auto it = needsIndex ().find (n->s);
@@ -451,6 +458,7 @@ struct Emitter
             case TLOWEST: return "tlowest";
             case CALL: return callStr (n);
             case PROJ: return "(" + expr (n->k[0]) + ")." + n->s;
+            case CAST: return f1 ("cast");
         }
         return "?";
     }
@@ -578,6 +586,7 @@ struct Emitter
         if (!r->note.empty ()) os << "; " << r->note;
         os << " -/\n";
         os << "def " << r->name << " {α : Type}";
+        if (needs.extra.count ("cast")) os << " {β : Type}";
         for (auto* c : {"Add", "Sub", "Mul", "Div", "Neg", "LT", "LE"})
             if (needs.cls.count (c)) os << " [" << c << " α]";
         if (needs.cls.count ("LT")) os << " [DecidableLT α]";
@@ -586,10 +595,10 @@ struct Emitter
         for (long l : needs.lits) os << " [OfNat α " << l << "]";
         for (auto* e : EXTRA_ORDER)
             if (needs.extra.count (e))
-                os << " (" << e << " : " << (extraIsConst (e) ? "α" : extraIsBinary (e) ? "α → α → α" : "α → α") << ")";
+                os << " (" << e << " : " << (extraIsConst (e) ? "α" : extraIsBinary (e) ? "α → α → α" : std::string (e) == "cast" ? "β → α" : "α → α") << ")";
         for (auto& pf : paramFns ())
             if (needs.extra.count (pf.first)) os << " (" << pf.first << " : " << pf.second << ")";
-        for (auto& p : r->params) os << " (" << p.name << " : " << (p.shape ? p.shape->lean + " α" : "α") << ")";
+        for (auto& p : r->params) os << " (" << p.name << " : " << (p.shape ? p.shape->lean + " " : "") << (p.src ? "β" : "α") << ")";
         os << " : " << retType () << " :=\n";
         for (auto* n : lets)
         {
@@ -624,6 +633,7 @@ template <class T> struct Sc
     static T tmax () { return std::numeric_limits<T>::max (); }
     static T teps () { return std::numeric_limits<T>::epsilon (); }
     static T tlowest () { return std::numeric_limits<T>::lowest (); }
+    static T cast (T a) { return a; } // single-typed evaluation: source type = T
 };
 template <> struct Sc<Frac>
 {
@@ -634,6 +644,7 @@ template <> struct Sc<Frac>
     static Frac tmax () { return Frac (1048576, 1); }
     static Frac teps () { return Frac (1, 64); }
     static Frac tlowest () { return Frac (-1048576, 1); }
+    static Frac cast (Frac a) { return stub1 ((int) CAST - (int) SQRT, a); } // a fixed rational stub, like the library functions
 };
 
 template <class T> struct Evaluator
@@ -673,6 +684,7 @@ template <class T> struct Evaluator
             case TMAX: return tmax;
             case TEPS: return teps;
             case TLOWEST: return tlowest;
+            case CAST: return Sc<T>::cast (ev (n->k[0]));
             case CALL:
             {
                 std::vector<T> r = call (n);
@@ -713,6 +725,7 @@ template <class T> struct Evaluator
         return c.kind == C_LT ? a < b : c.kind == C_LE ? a <= b : a == b;
     }
     // returns false if no path matches (cannot happen for a complete tree)
+    size_t leafIndex = (size_t) -1; // index (in f.paths) of the leaf selected by the last run ()
     std::vector<std::string> strs; // texts of the selected leaf, element tokens rendered with the real stream formatting
     template <class U> static void renderTok (std::ostringstream& o, const U& v) { o << v; }
     bool run (const FnRecord& f, const std::vector<T>& args, std::vector<T>& vals, std::vector<long>& ints, std::string& exc)
@@ -727,6 +740,7 @@ template <class T> struct Evaluator
             const PathRec& p0 = f.paths[lo];
             if (p0.conds.size () == depth)
             {
+                leafIndex = lo;
                 exc = p0.leaf.thrown ? p0.leaf.exc : "";
                 vals.clear ();
                 for (auto* v : p0.leaf.vals) vals.push_back (ev (v));
